@@ -153,12 +153,27 @@ def generate(seeds=(1, 2, 3), tier='quick'):
         up = -torch.sin(ph) * f + torch.cos(ph) * gg
         return (ur, up, h), (rho, ph, z)
 
+    # ---------------- coordinate conversions (definitions only; theorems are hand-written in Proofs/C09.lean) ----
+    def conv(name, fn, names, ranges):
+        def scen(w):
+            cs = [w.coord(n, *rg) for n, rg in zip(names, ranges)]
+            return tuple(fn(*cs))
+        ctx, trees = trace(name, scen)
+        return trees
+    conv('s2c', ops.spherical_to_cartesian, ['r', 'th', 'ph'], [(0.3, 3.0), (0.2, 2.9), (0.0, 6.2)])
+    conv('c2s', ops.cartesian_to_spherical, ['x', 'y', 'z'], [(-2.0, 2.0)] * 3)
+    conv('cyl2c', ops.cylindrical_to_cartesian, ['rho', 'ph', 'z'], [(0.3, 3.0), (0.0, 6.2), (-2.0, 2.0)])
+    conv('c2cyl', ops.cartesian_to_cylindrical, ['x', 'y', 'z'], [(-2.0, 2.0)] * 3)
+
     scalar_and_vector('cyl', cyl_coords, cyl_vec,
                       dict(grad=ops.cylindrical_grad, lap=ops.cylindrical_laplacian, div=ops.cylindrical_div,
                            curl=ops.cylindrical_curl, vlap=ops.cylindrical_vector_laplacian),
                       XYZc, Ec, ['rho', 'ph', 'z'], [('hr', 'rho ≠ 0')], ('r', 'p', 'z'))
     return g, stats
 
+
+STATIC = [('NdeVerif.Proofs.C09', 'NdeVerif.C09', ['s2c_traced', 'c2s_traced', 'cyl2c_traced', 'c2cyl_traced', 's2c_c2s', 'c2s_s2c', 'c2s_ranges',
+                                                   'cyl2c_c2cyl', 'c2cyl_cyl2c', 'c2cyl_ranges'])]
 
 ASSUMPTIONS = [
     'theorems are over the reals, off the coordinate singularities (r != 0, sin(theta) != 0; rho != 0)',
